@@ -56,6 +56,11 @@ type vfConn struct {
 	network.Conn
 	remote  peer.ID
 	streams []network.Stream
+	dir     network.Direction
+}
+
+func (c *vfConn) Stat() network.ConnStats {
+	return network.ConnStats{Stats: network.Stats{Direction: c.dir}}
 }
 
 func (c *vfConn) RemotePeer() peer.ID          { return c.remote }
@@ -132,7 +137,10 @@ func VfModeSwitch() {
 		_ = d.setMode(modeServer)
 	}
 	serverProto := d.serverProtocols[0]
-	conn := &vfConn{remote: peer.ID("remote")}
+	conn := &vfConn{remote: peer.ID("remote"), dir: network.DirInbound}
+	if vfBool("conn.outbound") {
+		conn.dir = network.DirOutbound // the direction of the connection is independent of its streams'
+	}
 	S := vfParam("S")
 	streams := make([]*vfStream, S)
 	for i := range streams {
